@@ -29,7 +29,10 @@ RULE = ("Hypothesis draws well-formed definition closures (vlib.defgen.programs:
         "module and host ids, hash values, field names/order/array lengths/element kind, width and signedness (as far as the language "
         "carries them) of every message and struct are compared between the generator's expectation, the parser model, Python "
         "(ctypes), C (gcc probe: sizeof/_Alignof/offsetof/_Generic), JavaScript (node) and MATLAB (interpreter); sizeof/offsetof from "
-        "gcc == ctypes == type_size == sum of MATLAB element sizes == expectation.  Non-trivial = accepted program with >=2 distinct "
+        "gcc == ctypes == type_size == sum of MATLAB element sizes == expectation.  A stream of NEAR MISSES runs beside it: hand-written files with zero / negative / fractional array lengths and with "
+        "one name given to two kinds of definition across files (with a field that uses it), plus a rotating slice (all in the thorough "
+        "tier) of the generator's 804-case conflict table; a rejection is only counted, an accepted one gets the same cross-language "
+        "comparison with the parser model as reference.  Non-trivial = accepted program with >=2 distinct "
         "native widths and >=1 nested or array field; distinct = set of (resolved native type, scalar/array) + nesting depth + options.")
 ASSUME = [
     "no MATLAB/Octave in the sandbox: the .m output is executed by vlib.langs.matlab_run, an interpreter for the statement subset the back end emits",
@@ -64,7 +67,36 @@ COVER_CONSTS = [
     ("CVX_PROD", "CVF_TENTH * CVF_THREE"), ("CVX_SUM", "CVF_TENTH + 0.2"), ("CVX_DIFF", "CVF_PI - CVF_E17"),
     ("CVX_PERIOD", "1/CVF_RATE"), ("CVX_QUOT", "CVF_PI / CVF_THREE"), ("CVX_MIX", "(CVF_BIG + CVF_TENTH) * CVF_NEG"),
     ("CVX_CHAIN", "CVX_PROD * CVX_PERIOD"), ("CVX_NEGSUB", "CVF_TENTH - CVF_NEG"), ("CVX_INT", "CVF_RATE * CVF_THREE + 1"),
+    # a constant whose name is the start of another one used in the same expression (N1 / N10): word-wise substitution
+    ("N1", "3"), ("N10", "10"), ("CH2", "2"), ("CH25", "25"), ("CVS_SUM", "N1 + N10"), ("CVS_PROD", "N1 * N10 + N1"), ("CVS_CH", "CH2 * CH25"),
 ]
+# the same with names that corrupt the expression when substituted textually (a separate program: such a compiler crashes or rejects)
+SUBSTRING_CONSTS = [
+    ("CHANS", "4"), ("CHANS_MAX", "16"), ("LEN", "8"), ("MAX_LEN", "32"), ("RATE", "5"), ("SAMPLE_RATE_HZ", "1000"), ("N1", "3"), ("N10", "10"),
+    ("SUB_A", "CHANS * 2 + CHANS_MAX"), ("SUB_B", "LEN + MAX_LEN"), ("SUB_C", "RATE * SAMPLE_RATE_HZ"), ("SUB_D", "CHANS_MAX - CHANS"),
+    ("SUB_E", "(MAX_LEN + LEN) * LEN"), ("SUB_F", "N1 + N10"),
+]
+
+
+def substring_program(core: bool) -> G.Program:
+    """Constants whose names contain one another, used together in constant expressions and in array lengths."""
+    path = "substr.yaml"
+    defs = const_defs(SUBSTRING_CONSTS, path)
+
+    def F(name, base, text):
+        return G.FieldSpec(name, f"{base}[{text}]", base, eval_const(text, {d.name: d.value for d in defs}), text)
+
+    defs.append(G.Def(kind="struct", name="SUB_STRUCT", file=path, fields=[F("a", "int32", "CHANS * 2 + CHANS_MAX"), F("b", "int16", "LEN + MAX_LEN"),
+                                                                         F("c", "char", "N1 + N10"), F("d", "uint8", "CHANS_MAX - CHANS")]))
+    defs.append(G.Def(kind="message", name="SUB_MSG", file=path, id=4400, fields=[G.FieldSpec("s", "SUB_STRUCT[N1]", "SUB_STRUCT", 3, "N1"),
+                                                                                F("v", "double", "N1 + N10")]))
+    spec = G.FileSpec(path=path, defs=defs)
+    p = G.Program([spec], path, {"auto_pad": True, "validate_alignment": True, "import_coredefs": core}, "single",
+                  {"covering", "const-substring-names", "expr-length", "struct-array"})
+    probs = p.problems()
+    if probs:
+        raise HarnessError(f"substring program is ill-formed: {probs[:2]}")
+    return p
 
 
 def eval_const(text, env):
@@ -196,6 +228,9 @@ def covering_program(core: bool, variant: int) -> G.Program:
     defs.append(G.Def(kind="message", name="CV_ALL", file=path, id=4321, fields=mf))
     defs.append(G.Def(kind="message", name="CV_NEST", file=path, id=4322,
                       fields=[G.FieldSpec("all", "CV_ALL", "CV_ALL"), G.FieldSpec("tail", "unsigned short[4]", "unsigned short", 4, "4")]))
+    defs.append(G.Def(kind="message", name="CV_LENGTHS", file=path, id=4324,
+                      fields=[G.FieldSpec("a", "int32[N1 + N10]", "int32", 13, "N1 + N10"), G.FieldSpec("b", "int16[CH2 * CH25]", "int16", 50, "CH2 * CH25"),
+                              G.FieldSpec("c", "char[N10]", "char", 10, "N10")]))
     defs.append(G.Def(kind="signal", name="CV_SIGNAL", file=path, id=4323))
     defs.append(G.Def(kind="module", name="CV_MODULE", file=path, value=42))
     defs.append(G.Def(kind="host", name="CV_HOST", file=path, value=77))
@@ -362,6 +397,142 @@ def run_case(E: L.Examiner, program: G.Program, res: Result = None):
     return fnd
 
 
+# ------------------------------------------------------------------------------------------------
+# near misses: programs the compiler is expected to REJECT.  A rejection is the normal outcome and is only counted; if the
+# compiler accepts one, its outputs are compared like any accepted program's (reference = the parser model, because the
+# generator's expectation does not apply) - "every definition file the compiler accepts" includes those it should not.
+
+_NM_LEN = """constants:
+  N_CHAN: 4
+  BLOCK: 8
+%s
+message_defs:
+  NM_DATA:
+    id: 4500
+    fields:
+      head: int32
+      unit: %s
+      tail: int32
+      stamp: double
+  NM_OUTER:
+    id: 4501
+    fields:
+      d: NM_DATA[2]
+      n: int32
+"""
+_NM_BASE = {"message": """message_defs:
+  SAMPLE:
+    id: 4600
+    fields:
+      t: double
+      v: int32[10]
+""", "struct": """struct_defs:
+  SAMPLE:
+    fields:
+      t: double
+      v: int32[10]
+""", "alias": """aliases:
+  SAMPLE: int16
+"""}
+_NM_ROOT = {"alias": """aliases:
+  SAMPLE: int16
+""", "struct": """struct_defs:
+  SAMPLE:
+    fields:
+      q: uint8[4]
+      r: float
+""", "message": """message_defs:
+  SAMPLE:
+    id: 4601
+    fields:
+      q: uint8[4]
+      r: float
+"""}
+_NM_USER = """  NM_USER:
+    id: 4602
+    fields:
+      s: SAMPLE
+      k: int16
+      arr: SAMPLE[3]
+"""
+
+
+def near_miss_family():
+    """[(kind, {"files", "root"}, opts)] hand-written files that the documented rules forbid: array lengths that are zero,
+    negative, or a fraction, and one name given to two kinds of definition in different files with a field that uses it."""
+    out = []
+    for kind, text in (("length-fraction", "int32[N_CHAN / BLOCK]"), ("length-fraction-product", "int16[N_CHAN * 0.1]"), ("length-zero", "int32[0]"),
+                       ("length-zero-expr", "int32[N_CHAN - 4]"), ("length-negative", "int32[N_CHAN - BLOCK]"), ("length-nonintegral", "int32[2.5]"),
+                       ("length-fraction-char", "char[1 / BLOCK]"), ("length-fraction-float-const", "double[FRACTION]")):
+        extra = "  FRACTION: 0.75" if "FRACTION" in text else ""
+        for core in (False, True):
+            out.append((kind, {"files": {"nm.yaml": _NM_LEN % (extra, text)}, "root": "nm.yaml"},
+                        dict(auto_pad=True, validate_alignment=True, import_coredefs=core)))
+    for first in ("message", "struct", "alias"):
+        for second in ("alias", "struct", "message"):
+            if first == second:
+                continue
+            root = "imports:\n  - base.yaml\n" + _NM_ROOT[second]
+            if second == "message":
+                root += _NM_USER
+            else:
+                root += "message_defs:\n" + _NM_USER
+            out.append((f"name-{second}-shadows-imported-{first}", {"files": {"base.yaml": _NM_BASE[first], "root.yaml": root}, "root": "root.yaml"},
+                        dict(auto_pad=True, validate_alignment=True, import_coredefs=False)))
+    return out
+
+
+def near_miss_findings(kind, ex: L.Exam):
+    out = []
+    ref = ex.ref
+    for lang, sig in ex.sigs.items():
+        for a, w, t in L.diff_sigs(ref, sig, skip=ex.core if lang == "c" else frozenset()):
+            out.append((f"near-miss-accepted/{kind}/{lang}-{a.split('/')[0]}",
+                        f"the compiler accepts a file it should reject ({kind}) and the {lang} output then disagrees with what the compiler recorded, at {w or 'module level'}: {t}"))
+    if "c" in ex.sigs and "python" in ex.sigs and not ex.sigs["c"]["load_error"] and not ex.sigs["python"]["load_error"]:
+        for n, cd in ex.sigs["c"]["defs"].items():
+            pd = ex.sigs["python"]["defs"].get(n)
+            if pd and not pd.get("error") and cd["fields"] and cd["size"] != pd["size"]:
+                out.append((f"near-miss-accepted/{kind}/c-vs-python-size", f"accepted although it should be rejected ({kind}): gcc sizeof({n}) = {cd['size']}, ctypes.sizeof = {pd['size']}"))
+    if ex.matlab_error is not None:
+        out.append((f"near-miss-accepted/{kind}/matlab-load", f"accepted although it should be rejected ({kind}); the MATLAB script fails: {ex.matlab_error}"))
+    return out
+
+
+def run_near_miss(E: L.Examiner, kind, src, opts, res: Result = None):
+    """-> [(key, what)]"""
+    ex = E.examine(src, opts, expect=None)
+    if res is not None:
+        res.count("near-miss/programs")
+        res.inconclusive += len(ex.timeouts)
+    if ex.compile_error is not None:
+        if res is not None:
+            res.count("near-miss/rejected" if ex.compile_error.is_parser_error else "near-miss/internal-error")
+        return []
+    fnd = near_miss_findings(kind, ex)
+    if res is not None:
+        res.count("near-miss/accepted")
+        res.count("near-miss/accepted/" + kind.split("/")[0])
+        if not fnd:
+            res.count("near-miss/accepted-and-consistent")
+    return fnd
+
+
+def conflict_near_misses(seed, idx, nshards, per_shard):
+    """(kind, Program) for this shard's slice of defgen's conflict table (all of it when per_shard is None)."""
+    cases = G.all_conflict_cases()
+    mine = [c for i, c in enumerate(cases) if i % nshards == idx]
+    if per_shard is not None and mine:
+        start = (seed * 7) % len(mine)
+        mine = [mine[(start + j) % len(mine)] for j in range(min(per_shard, len(mine)))]
+    for j, c in enumerate(mine):
+        ch = G.RandomChooser(seed * 1000 + j)
+        base = G.random_program(seed * 1000 + j, skeleton=True, validate_alignment=True)
+        q = G.inject_conflict(base, c["kind"], c["placement"], ch, swap=c["swap"], variant=c["variant"])
+        if q is not None:
+            yield c["kind"] + "/" + c["placement"], q
+
+
 def trace_of(program, key):
     return {"key": key, "program": program.to_json()}
 
@@ -383,6 +554,19 @@ def shard(seed, n, idx, quick):
         if idx == 0:
             types = sorted(G.NATIVES)
             res.notes.append(f"covering family: each of the {len(types)} native names as scalar, array element and alias target (scalar and array), core on and off")
+
+        one(substring_program(idx % 2 == 0), "covering-family")
+        res.evaluations += 1
+        # near misses: the hand-written family (member j on shard j mod 16) and a slice of the generator's conflict table
+        for j, (kind, src, opts) in enumerate(near_miss_family()):
+            if j % 16 == idx:
+                for key, what in run_near_miss(E, kind, src, opts, res):
+                    res.add_finding(key, what, {"key": key, "near_miss": kind, "src": src, "opts": opts})
+                res.evaluations += 1
+        for kind, q in conflict_near_misses(seed, idx, 16, 4 if quick else None):
+            for key, what in run_near_miss(E, kind, q, q.compile_kwargs(), res):
+                res.add_finding(key, what, {"key": key, "near_miss": kind, "src": {"files": dict(q.files), "root": q.root}, "opts": q.compile_kwargs()})
+            res.evaluations += 1
 
         def body(v):
             program, cseed = v
@@ -411,10 +595,12 @@ def run(ctx: RunContext) -> int:
 
 
 def replay_trace(trace: dict):
-    program = G.Program.from_json(trace["program"])
     E = L.Examiner()
     try:
-        fnd = run_case(E, program, None)
+        if "near_miss" in trace:
+            fnd = run_near_miss(E, trace["near_miss"], trace["src"], trace["opts"], None)
+        else:
+            fnd = run_case(E, G.Program.from_json(trace["program"]), None)
     finally:
         E.close()
         L.cleanup()
